@@ -185,6 +185,17 @@ def card_facts(S):
             z3.Implies(fin(S), (c == 0) == (S == z3.K(ks, z3.BoolVal(False))))]
 
 
+def nodup_seq_card(seq, S):
+    """a duplicate-free sequence of members of the finite set S is no longer than card(S)
+    (List.Nodup.length_le_card / Finset.card_le_card_of_injOn)"""
+    _lemma_uses.append(("nodup-seq-card", "Finset.card_le_card_of_injOn"))
+    i, j = z3.Ints("nd!i nd!j")
+    n = seq.n
+    members = z3.ForAll([i], z3.Implies(z3.And(0 <= i, i < n), z3.Select(S, seq.arr[i])))
+    distinct = z3.ForAll([i, j], z3.Implies(z3.And(0 <= i, i < j, j < n), seq.arr[i] != seq.arr[j]))
+    return z3.Implies(z3.And(fin(S), members, distinct), n <= card(S))
+
+
 def add_axiom(owner, formula, why):
     _axioms.append((owner, formula, why))
 
